@@ -2,6 +2,8 @@
 
 package parser
 
+import "strconv"
+
 // Contracts for the deductive verifier in /verif (build tag verif: not compiled
 // into normal builds). Oracle: CSS Syntax Level 3 §4 (tokenization) for the
 // predicates; memory safety, progress and exact consumption for the consumers
@@ -424,6 +426,8 @@ func vBackslashOK(c rune) bool {
 	return 0 < c && c < 0x80 && !vHexDigit(c) && c != '\n' && c != '\r' && c != '\f'
 }
 
+var _ = strconv.FormatInt
+
 // the fixed hexadecimal escapes the serializer uses
 func vHexEsc(mapped string, c rune) bool {
 	return (mapped == `\A ` && c == '\n') || (mapped == `\D ` && c == '\r') || (mapped == `\C ` && c == '\f') || (mapped == `\9 ` && c == '\t')
@@ -465,4 +469,4 @@ func vRawURL(c rune) bool {
 //@   nopanic
 //@   requires forall(i, 0, len(value), value[i] != 0)
 //@   modifies nothing
-//@   call WriteString#1 assert (arg1 == string(c) && vRawURL(c)) || (arg1 == "\\" + string(c) && vBackslashOK(c)) || vHexEsc(arg1, c)
+//@   call WriteString#1 assert (arg1 == string(c) && vRawURL(c)) || (arg1 == "\\" + string(c) && vBackslashOK(c)) || vHexEsc(arg1, c) || (0 < c && arg1 == "\\" + strconv.FormatInt(int64(c), 16) + " ")
